@@ -179,6 +179,16 @@ def run_check(pid, tier, seed):
             to_replay.append(c)
     rep = replay_batch(pid, [dict(task=c['task'], inputs=c.get('inputs', {}), what=c.get('what')) for c in to_replay]) \
         if to_replay else []
+    # a candidate that did not reproduce inside the batch is tried once more alone in its own fresh interpreter (module-level
+    # state left behind by the replays before it must not decide the outcome); at most 8 such retries per run
+    retries = 0
+    for k, (c, r) in enumerate(zip(to_replay, list(rep))):
+        if r is None and retries < 8:
+            retries += 1
+            try:
+                rep[k] = replay_batch(pid, [dict(task=c['task'], inputs=c.get('inputs', {}), what=c.get('what'))])[0]
+            except Exception:
+                pass
     replay_dir = os.path.join(HERE, 'replays')
     confirmed_sigs = {}
     for c, r in zip(to_replay, rep):
